@@ -56,6 +56,8 @@ def run(ctx):
     ctx.rule(predictors, f)
     ctx.rule(means, f)
     ctx.rule(uniform_post, f)
+    ctx.rule(bitreader, f)
+    ctx.rule(stream_header, f)
 
 
 # ------------------------------------------------------------------ constants
@@ -654,3 +656,118 @@ def uniform_post(ctx, f):
 
 def _loop_nodes(cfg, block):
     return {cfg.node(s) for s in ast.walk(block) if isinstance(s, ast.stmt) and cfg.node(s) is not None}
+
+
+SHORTEN_CONSTS = {
+    # shorten 2.x format constants (shorten.h)
+    "ULONGSIZE": 2, "NSKIPSIZE": 1, "LPCQSIZE": 2, "LPCQUANT": 5, "XBITESIZE": 7, "TYPESIZE": 4, "CHANSIZE": 0, "FNSIZE": 2,
+    "ENERGYSIZE": 3, "BITSHIFTSIZE": 2, "NWRAP": 3, "NBITPERLONG": 32, "MASKTABSIZE": 33,
+    "TYPE_AU1": 0, "TYPE_S8": 1, "TYPE_U8": 2, "TYPE_S16HL": 3, "TYPE_U16HL": 4, "TYPE_S16LH": 5, "TYPE_U16LH": 6, "TYPE_ULAW": 7,
+    "TYPE_AU2": 8, "TYPE_EOF": 9, "DEFAULT_V0NMEAN": 0, "DEFAULT_V2NMEAN": 4,
+}
+
+
+def bitreader(ctx, f, R="R-C13-bitreader"):
+    prog = ctx.prog
+    consts = module_consts(prog)
+    for k, v in SHORTEN_CONSTS.items():
+        if consts.get(k) != v:
+            ctx.bad(R, "_sphere", "%s = %s" % (k, consts.get(k)), "%s is %s but the shorten format fixes it at %d" % (k, consts.get(k), v), module=prog.module("_sphere"))
+        else:
+            ctx.ok(R, "src/pydrobert/speech/_sphere.py", "%s == %d as in the shorten format" % (k, v))
+    magic = prog.module("_sphere").assigns.get("MAGIC")
+    # var_get: zig-zag sign folding of the Rice-coded unsigned value
+    vg = prog.nested(f, "var_get")
+    ev = SymEval(prog, vg).run()
+    val = None
+    for guard, v, _ in reversed(ev.returns):
+        val = v if val is None else S.cond(guard, v, val)
+    uv = S.call("_sphere.copy_shortened_samples.<locals>.uvar_get", S.add(S.sym(vg.params[0]), S.ONE))
+    want = S.cond(S.call("bitand", uv, S.ONE), S.call("invert", S.call("rshift", uv, S.ONE)), S.call("rshift", uv, S.ONE))
+    ok = val is not None and S.compare(val, want, domain={})["verdict"] == "equal"
+    ctx.check(ok, R, vg, vg.node, "signed values are read with nbin+1 bits and unfolded: odd -> ~(u >> 1), even -> u >> 1",
+              "var_get returns %s; shorten folds the sign into the low bit of an (nbin+1)-bit unsigned code" % (S.show(val)[:160] if val is not None else None))
+    ug = prog.nested(f, "ulong_get")
+    ev = SymEval(prog, ug).run()
+    v = ev.returns[0][1] if ev.returns else None
+    uvn = "_sphere.copy_shortened_samples.<locals>.uvar_get"
+    want = S.call(uvn, S.call(uvn, S.sym("pydrobert.speech._sphere.ULONGSIZE")))
+    ctx.check(v == want, R, ug, ug.node, "unsigned longs are read as uvar_get(uvar_get(ULONGSIZE))", "ulong_get returns %s" % (S.show(v)[:120] if v is not None else None))
+    # word_get: 32-bit big-endian words, 4 bytes consumed
+    wg = prog.nested(f, "word_get")
+    up = [c for c in astq.func_calls(wg) if prog.qualify(wg.module, c.func, wg) == "struct.unpack"]
+    ok = len(up) == 1 and astq.const_str(up[0].args[0]) in (">l", ">i", ">L", ">I")
+    ctx.check(ok, R, wg, up[0] if up else MISSING(wg.node), "words are 32-bit big-endian", "word format is %s" % (astq.const_str(up[0].args[0]) if up else None))
+    adv = [n for n in wg.body_nodes() if isinstance(n, ast.Assign) and astq.text(n.targets[0]) == "word_get.inpbuf"]
+    ok = len(adv) == 1 and isinstance(adv[0].value, ast.Subscript) and isinstance(adv[0].value.slice, ast.Slice) and astq.text(adv[0].value.slice.lower) == "4" and adv[0].value.slice.upper is None
+    ctx.check(ok, R, wg, adv[0] if adv else MISSING(wg.node), "each word consumes exactly 4 bytes of the input", "the reader advances by %s" % (astq.text(adv[0].value) if adv else None))
+    # mask table: masktab[i] = 2^i - 1
+    mt = [n for n in f.node.body if isinstance(n, ast.For) and any(isinstance(x, ast.Subscript) and astq.is_name(x.value, "masktab") for x in ast.walk(n))]
+    ok = False
+    if len(mt) == 1:
+        body = [astq.text(x).replace(" ", "") for x in mt[0].body]
+        it = astq.text(mt[0].iter).replace(" ", "")
+        ok = body == ["val<<=1", "val|=1", "masktab[i]=val"] and it == "range(1,MASKTABSIZE)"
+    ctx.check(ok, R, f, mt[0] if mt else MISSING(f.node), "masktab[i] = 2^i - 1 for i = 1..32 (and 0 for i = 0)", "mask table construction is %s" % (astq.text(mt[0])[:120] if mt else None))
+    # uvar_get: unary prefix then nbin low bits
+    ug = prog.nested(f, "uvar_get")
+    txt = [astq.text(n).replace(" ", "") for n in ug.body_nodes() if isinstance(n, (ast.Assign, ast.AugAssign, ast.If, ast.While))]
+    need = {
+        "a zero bit extends the unary prefix by one": "result+=1",
+        "the prefix ends at the first 1 bit (tested after moving to the next bit)": "ifgbuffer&1<<nbitget:",
+        "a new word is fetched when the current one is exhausted": "gbuffer=word_get()",
+        "the low bits are appended below the prefix": "result<<=nbin",
+        "low bits are taken from the top of what is left of the word": "result|=gbuffer>>nbitget-nbin&masktab[nbin]",
+        "a value may straddle two words": "result=result<<nbitget|gbuffer&masktab[nbitget]",
+    }
+    joined = "\n".join(txt)
+    for what, frag in need.items():
+        ctx.check(frag in joined, R, ug, ug.node, "uvar_get: " + what, "uvar_get no longer contains `%s` (%s)" % (frag, what))
+    order = [i for i, t in enumerate(txt) if t == "nbitget-=1"]
+    test = [i for i, t in enumerate(txt) if t.startswith("ifgbuffer&1<<nbitget")]
+    ctx.check(bool(order) and bool(test) and order[0] < test[0], R, ug, ug.node, "uvar_get moves to the next bit before testing it")
+    # fix_bitshift
+    fb = prog.func("_sphere.fix_bitshift")
+    ftxt = astq.text(fb.node).replace(" ", "")
+    ctx.check("ifftype==TYPE_AU1:" in ftxt and "buffer[:nitem]=ULAW_OUTWARD[bitshift,buffer[:nitem]+128]" in ftxt, R, fb, fb.node,
+              "mu-law (AU1) samples are mapped back through ULAW_OUTWARD[bitshift, x + 128]")
+    ctx.check("elifbitshift:" in ftxt and "buffer<<=bitshift" in ftxt, R, fb, fb.node, "linear samples are shifted back up by bitshift")
+    ctx.check("elifftype==TYPE_AU2:" in ftxt and "NEGATIVE_ULAW_ZERO" in ftxt and "buffer[i]+129" in ftxt, R, fb, fb.node, "AU2 samples use the two-zero mu-law mapping")
+    calls = [c for c in astq.func_calls(f) if astq.is_name(c.func, "fix_bitshift")]
+    ok = len(calls) == 1 and [astq.text(a).replace(" ", "") for a in calls[0].args] == ["cbuffer[nwrap:]", "blocksize", "bitshift", "ftype"]
+    ctx.check(ok, R, f, calls[0] if calls else MISSING(f.node), "the fix-up is applied to the new block (cbuffer[nwrap:], blocksize samples) with the current shift and type")
+    # residual width read for every predictor but ZERO
+    rs = [n for n in f.body_nodes() if isinstance(n, ast.Assign) and astq.is_name(n.targets[0], "resn")]
+    pm = astq.parents(f)
+    ok = len(rs) == 1 and astq.eq_text(rs[0].value, "uvar_get(ENERGYSIZE)") and \
+        [astq.text(a.test).replace(" ", "") for a in astq.ancestors(pm, rs[0]) if isinstance(a, ast.If)][:1] == ["cmd!=FN_ZERO"]
+    ctx.check(ok, R, f, rs[0] if rs else MISSING(f.node), "the residual width is read (ENERGYSIZE bits) for every predictor except ZERO")
+
+
+def stream_header(ctx, f, R="R-C13-stream-header"):
+    prog = ctx.prog
+    seq = []
+    for n in f.node.body:
+        if isinstance(n, ast.Assign) and isinstance(n.value, ast.Call) and astq.is_name(n.value.func, "ulong_get") and isinstance(n.targets[0], ast.Name):
+            seq.append(n.targets[0].id)
+    ctx.check(seq == ["ftype", "nchan", "blocksize", "maxnlpc", "nmean", "nskip"], R, f, f.node,
+              "the stream header is read in the order type, channels, block size, max LPC order, mean length, skip bytes",
+              "header fields are read as %s; the shorten header order is ftype, nchan, blocksize, maxnlpc, nmean, nskip" % seq)
+    txt = astq.text(f.node).replace(" ", "")
+    ctx.check("assertinpbuf[:4]==MAGIC" in txt and "struct.unpack('b',inpbuf[4:5].tobytes())" in txt, R, f, f.node, "magic 'ajkg' and a one-byte version precede the bit stream")
+    ctx.check("word_get.inpbuf=inpbuf[5:]" in txt, R, f, f.node, "the bit stream starts right after the version byte")
+    ctx.check("buffer=np.zeros((nchan,blocksize+nwrap),dtype=np.int32)" in txt, R, f, f.node, "per-channel history + block buffers start at zero, 32-bit")
+    ctx.check("offset=np.full((nchan,nblock),mean,dtype=np.int32)" in txt and "nblock=max(1,nmean)" in txt, R, f, f.node, "the running-mean history holds max(1, nmean) initial means per channel")
+    ctx.check("ifversion>1:lpcqoffset=V2LPCQOFFSET" in txt.replace("\n", ""), R, f, f.node, "version 2 adds the LPC rounding offset")
+    bs = [n for n in f.body_nodes() if isinstance(n, ast.Assign) and astq.is_name(n.targets[0], "blocksize") and isinstance(n.value, ast.Call)]
+    pm = astq.parents(f)
+    inloop = [n for n in bs if any(isinstance(a, ast.While) for a in astq.ancestors(pm, n))]
+    ok = len(inloop) == 1 and astq.eq_text(inloop[0].value, "ulong_get()")
+    ctx.check(ok, R, f, inloop[0] if inloop else MISSING(f.node), "BLOCKSIZE re-reads the block size with ulong_get()")
+    sh = [n for n in f.body_nodes() if isinstance(n, ast.Assign) and astq.is_name(n.targets[0], "bitshift") and isinstance(n.value, ast.Call)]
+    ok = len(sh) == 1 and astq.eq_text(sh[0].value, "uvar_get(BITSHIFTSIZE)")
+    ctx.check(ok, R, f, sh[0] if sh else MISSING(f.node), "BITSHIFT reads the shift with BITSHIFTSIZE bits")
+    ret = astq.returns_of(f)
+    ctx.check(len(ret) == 1 and astq.is_name(ret[0].value, "sampsdone"), R, f, ret[0] if ret else MISSING(f.node), "the number of decoded sample frames is returned")
+    inc = [n for n in f.body_nodes() if isinstance(n, ast.AugAssign) and astq.is_name(n.target, "sampsdone")]
+    ctx.check(len(inc) == 1 and astq.text(inc[0].value) == "blocksize", R, f, inc[0] if inc else MISSING(f.node), "each completed block (all channels) adds blocksize frames")
